@@ -10,7 +10,7 @@ from ..model import Func, Program, walk_own
 from ..report import Report
 from ..resolve import dotted
 from ..util import returns_of, src
-from .cachefam import (CacheFacts, rule_coherence_capacity, rule_invalidation, rule_value_stored)
+from .cachefam import (CacheFacts, rule_coherence_capacity, rule_invalidation, rule_list_ops, rule_value_stored)
 
 
 def run(prog: Program, rep: Report):
@@ -20,6 +20,7 @@ def run(prog: Program, rep: Report):
     r4_ends(prog, rep, cf)
     rule_value_stored(prog, rep, cf, "C06.R5")
     r6_payload_layout(prog, rep, cf)
+    rule_list_ops(prog, rep, cf, "C06.R7")
 
 
 class _UseMoves(Client):
